@@ -501,6 +501,31 @@ def gather(a, dim, index, sparse_grad=False):
     return SymTensor.from_elem(index.shape, a.dtype, elem)
 
 
+def scatter_(a, dim, index, src):
+    """a.scatter_(dim, index, src): a[..., index[..., i], ...] = src[..., i] along dim.  The written tensor is a fresh
+    function f with the universal fact  f(idx with index[idx] at dim) == src[idx]  (registered in ctx.universals
+    under the key "scatter", instantiated by contracts) and  f == old  wherever no index entry points (not
+    expressible without the inverse map: left unconstrained, which over-approximates)."""
+    d = T._norm_dim(dim, a.dim())
+    c = sym.ctx()
+    ie = index.elem_fn()
+    se = src.elem_fn() if O.is_tensor(src) else (lambda idx: O.scalar_term(src, a.dtype))
+    if ie is None or se is None:
+        a.storage.elem = None
+        return a
+    O._check_index_bounds(index, a.shape[d])
+    f = T.fresh_fun("scattered", a.dim(), T.z3sort(a.dtype))
+    ishape = index.shape
+    sshape = src.shape if O.is_tensor(src) else ()
+    c.universals.append(("scatter", lambda idx: z3.Implies(z3.And(*[z3.And(O.ix(i) >= 0, O.ix(i) < O.ix(s_)) for i, s_ in zip(idx, ishape)]),
+                                                          f(*[O.ix(ie(tuple(idx))) if k == d else O.ix(i) for k, i in enumerate(idx)]) == se(tuple(idx) if sshape else ()))))
+    a._write(lambda idx: f(*[O.ix(i) for i in idx]), "scatter_")
+    return a
+
+
+S.scatter_ = scatter_
+
+
 def norm(a, p=2, dim=None, keepdim=False):
     f = sym.uf("sqrt", z3.RealSort(), z3.RealSort())
     sq = O.sum_(mul(a, a), dim=dim, keepdim=keepdim)
